@@ -21,158 +21,7 @@ Proof.
     pose proof (decode_size (b :: r) c sz ltac:(discriminate) Ed). cbn [length] in *. lia.
 Qed.
 
-(* one iteration of readStringLiteral's loop stops, or continues with strictly less input *)
-Definition fstep_ok (rest : list N) (r : fstep) : Prop :=
-  match r with
-  | FStop _ r' => length r' <= length rest
-  | FCont _ r' => length r' < length rest
-  end.
-
-Lemma oct_emit_rest ds r : exists ch, oct_emit ds r = FCont ch r.
-Proof.
-  unfold oct_emit. destruct (parse_int_32 8 ds) as [i|]; [destruct (255 <? i)%Z|]; eexists; reflexivity.
-Qed.
-
-Lemma uni_emit_rest k e long r2 : exists ch n, uni_emit k e long r2 = FCont ch (skipn n r2).
-Proof.
-  unfold uni_emit. destruct (fread_runes k r2) as [rs n].
-  destruct (parse_int_32 16 _) as [i|]; [destruct (long && _)|]; eexists _, n; reflexivity.
-Qed.
-
-Ltac fin := cbn [fstep_ok length]; rewrite ?skipn_length; lia.
-
-Lemma fstr_step_ok q rest : fstep_ok rest (fstr_step q rest).
-Proof.
-  unfold fstr_step. destruct rest as [|b0 r0] eqn:Erest; [cbn; lia|].
-  rewrite <- Erest in *. assert (Hne : rest <> []) by (rewrite Erest; discriminate).
-  destruct (decode_rune rest) as [c sz] eqn:Ed.
-  pose proof (decode_size rest c sz Hne Ed) as Hsz.
-  destruct (c =? q)%N; [fin|].
-  destruct (negb (c =? 92)%N); [fin|].
-  destruct (skipn sz rest) as [|b1 r1] eqn:Er1; [fin|].
-  rewrite <- Er1 in *. assert (Hne1 : skipn sz rest <> []) by (rewrite Er1; discriminate).
-  destruct (decode_rune (skipn sz rest)) as [e esz] eqn:Ed1.
-  pose proof (decode_size _ e esz Hne1 Ed1) as Hesz. rewrite skipn_length in Hesz.
-  destruct ((e =? 120)%N || (e =? 88)%N).
-  { destruct (skipn esz (skipn sz rest)) as [|b2 r2] eqn:Er2; [fin|].
-    rewrite <- Er2 in *. assert (Hne2 : skipn esz (skipn sz rest) <> []) by (rewrite Er2; discriminate).
-    destruct (decode_rune (skipn esz (skipn sz rest))) as [c1 sz1] eqn:Ed2.
-    pose proof (decode_size _ c1 sz1 Hne2 Ed2) as Hsz1. rewrite !skipn_length in Hsz1.
-    destruct (skipn sz1 (skipn esz (skipn sz rest))) as [|b3 r3] eqn:Er3; [fin|].
-    rewrite <- Er3 in *.
-    destruct (decode_rune (skipn sz1 (skipn esz (skipn sz rest)))) as [c2 sz2] eqn:Ed3.
-    destruct (is_hexdigit c2); cbv beta iota; destruct (parse_int_32 16 _); fin. }
-  destruct (is_octdigit e).
-  { destruct (skipn esz (skipn sz rest)) as [|b2 r2] eqn:Er2; [fin|].
-    rewrite <- Er2 in *. assert (Hne2 : skipn esz (skipn sz rest) <> []) by (rewrite Er2; discriminate).
-    destruct (decode_rune (skipn esz (skipn sz rest))) as [c2 sz2] eqn:Ed2.
-    pose proof (decode_size _ c2 sz2 Hne2 Ed2) as Hsz2. rewrite !skipn_length in Hsz2.
-    destruct (negb (is_octdigit c2)).
-    { destruct (oct_emit_rest [e] (skipn esz (skipn sz rest))) as [ch ->]. fin. }
-    destruct (skipn sz2 (skipn esz (skipn sz rest))) as [|b3 r3] eqn:Er3; [fin|].
-    rewrite <- Er3 in *.
-    destruct (decode_rune (skipn sz2 (skipn esz (skipn sz rest)))) as [c3 sz3] eqn:Ed3.
-    destruct (negb (is_octdigit c3)).
-    - destruct (oct_emit_rest [e; c2] (skipn sz2 (skipn esz (skipn sz rest)))) as [ch ->]. fin.
-    - destruct (oct_emit_rest [e; c2; c3] (skipn sz3 (skipn sz2 (skipn esz (skipn sz rest))))) as [ch ->]. fin. }
-  destruct (e =? 117)%N.
-  { destruct (uni_emit_rest 4 117%N false (skipn esz (skipn sz rest))) as (ch & n & ->). fin. }
-  destruct (e =? 85)%N.
-  { destruct (uni_emit_rest 8 85%N true (skipn esz (skipn sz rest))) as (ch & n & ->). fin. }
-  destruct (simple_esc e); fin.
-Qed.
-
-Lemma fstring_total q : forall fuel rest, length rest < fuel ->
-  exists b r, fstring fuel q rest = Some (b, r) /\ length r <= length rest.
-Proof.
-  induction fuel as [|fuel IH]; intros rest Hf; [lia|]. cbn [fstring].
-  pose proof (fstr_step_ok q rest) as Hs. destruct (fstr_step q rest) as [ch r|ch r]; cbn [fstep_ok] in Hs.
-  - exists ch, r. split; [reflexivity|exact Hs].
-  - destruct (IH r ltac:(lia)) as (b & r' & -> & Hl). exists (ch ++ b), r'. split; [reflexivity|lia].
-Qed.
-
-Theorem fast_string_total_lemma : forall q rest, fast_decode q rest <> None.
-Proof.
-  intros q rest. unfold fast_decode.
-  destruct (fstring_total q (S (length rest)) rest ltac:(lia)) as (b & r & -> & _). discriminate.
-Qed.
-
-Lemma skip_line_le r : length (skip_line r) <= length r.
-Proof. induction r as [|c r IH]; cbn; [lia|]. destruct (c =? 10)%N; cbn; lia. Qed.
-
-Lemma skip_block_le r : length (skip_block r) <= length r.
-Proof.
-  induction r as [|c r IH]; cbn [skip_block length]; [lia|].
-  destruct (c =? 42)%N; [|lia].
-  destruct r as [|d r']; [cbn; lia|]. destruct (d =? 47)%N; cbn [length] in *; lia.
-Qed.
-
-(* one call of Lex on input that does not start with white space consumes at least one byte *)
-Definition fdres_ok (rest : list N) (r : fdres) : Prop :=
-  match r with
-  | FTok _ r' | FSkip r' => length r' < length rest
-  | FFuel => False
-  end.
-
-Lemma fdispatch_ok rest : rest <> [] -> fdres_ok rest (fdispatch rest).
-Proof.
-  intros Hne. unfold fdispatch.
-  destruct (decode_rune rest) as [c sz] eqn:Ed.
-  pose proof (decode_size rest c sz Hne Ed) as Hsz.
-  assert (Hl1 : length (skipn sz rest) = length rest - sz) by apply skipn_length.
-  destruct (c =? 46)%N.
-  { destruct (skipn sz rest) as [|d r2] eqn:Er; [cbn in *; lia|].
-    destruct (is_digit d); cbn [fdres_ok]; [rewrite skipn_length; lia|cbn [length] in *; lia]. }
-  destruct (is_ident_start c); [cbn [fdres_ok]; rewrite skipn_length; lia|].
-  destruct (is_digit c); [cbn [fdres_ok]; rewrite skipn_length; lia|].
-  destruct ((c =? 39)%N || (c =? 34)%N).
-  { destruct (fstring_total c (S (length (skipn sz rest))) (skipn sz rest) ltac:(lia)) as (b & r & -> & Hl).
-    cbn [fdres_ok]. lia. }
-  destruct (c =? 47)%N.
-  { destruct (skipn sz rest) as [|d r2] eqn:Er; [cbn in *; lia|]. cbn [length] in Hl1.
-    destruct (d =? 47)%N; [pose proof (skip_line_le r2); cbn [fdres_ok]; lia|].
-    destruct (d =? 42)%N; [pose proof (skip_block_le r2); cbn [fdres_ok]; lia|].
-    cbn [fdres_ok length]. lia. }
-  cbn [fdres_ok]. lia.
-Qed.
-
-Lemma ftokens_total : forall fuel rest, length rest < fuel -> ftokens fuel rest <> None.
-Proof.
-  induction fuel as [|fuel IH]; intros rest Hf; [lia|]. cbn [ftokens].
-  destruct rest as [|c r]; [discriminate|].
-  destruct (is_ws c); [apply IH; cbn [length] in Hf; lia|].
-  pose proof (fdispatch_ok (c :: r) ltac:(discriminate)) as Hd.
-  destruct (fdispatch (c :: r)) as [t r'|r'|]; cbn [fdres_ok] in Hd; [| |contradiction].
-  - specialize (IH r' ltac:(lia)). destruct (ftokens fuel r'); [discriminate|congruence].
-  - apply IH. lia.
-Qed.
-
-Theorem fast_lex_total_lemma : forall data, fast_lex data <> None.
-Proof. intros data. unfold fast_lex. apply ftokens_total. lia. Qed.
-
-Theorem fast_scan_total_lemma : forall data, fast_scan data <> None.
-Proof.
-  intros data. unfold fast_scan. pose proof (fast_lex_total_lemma data) as H.
-  destruct (fast_lex data); [discriminate|congruence].
-Qed.
-
-(* with enough fuel the result of ftokens does not depend on the fuel *)
-Lemma ftokens_fuel : forall fuel fuel' rest, length rest < fuel -> length rest < fuel' ->
-  ftokens fuel rest = ftokens fuel' rest.
-Proof.
-  induction fuel as [|fuel IH]; intros fuel' rest Hf Hf'; [lia|].
-  destruct fuel' as [|fuel']; [lia|]. cbn [ftokens].
-  destruct rest as [|c r]; [reflexivity|].
-  destruct (is_ws c); [apply IH; cbn [length] in *; lia|].
-  pose proof (fdispatch_ok (c :: r) ltac:(discriminate)) as Hd.
-  destruct (fdispatch (c :: r)) as [t r'|r'|]; cbn [fdres_ok] in Hd; [| |contradiction].
-  - rewrite (IH fuel' r') by lia. reflexivity.
-  - apply IH; lia.
-Qed.
-
-(* ================================================================================================
-   C. string literals: the fast lexer against the full lexer
-   ================================================================================================ *)
+(* ---- facts that do not depend on the parser of the escape digits ---- *)
 Lemma hexdigit_not_sign c : is_hexdigit c = true -> (c =? 43)%N = false /\ (c =? 45)%N = false.
 Proof. intros H. split; apply N.eqb_neq; intros ->; vm_compute in H; discriminate. Qed.
 
@@ -270,20 +119,6 @@ Proof.
     intros H. inversion H; subst. apply IH in Er. destruct Er as [-> <-]. split; reflexivity.
 Qed.
 
-Lemma uni_emit_ok k e long r2 rs n i :
-  fread_runes k r2 = (rs, n) -> length rs = k -> parse_int_32 16 rs = Some (Z.of_N i) ->
-  (long = true -> (i <= 1114111)%N) ->
-  uni_emit k e long r2 = FCont (encode_rune i) (skipn n r2).
-Proof.
-  intros Hfr Hl Hp Hlong. unfold uni_emit. rewrite Hfr, Hl, Nat.sub_diag, Nat.ltb_irrefl.
-  cbn [repeat]. rewrite app_nil_r, Hp. cbn [app]. rewrite enc_rune_z_N.
-  destruct long; cbn [andb]; [|reflexivity].
-  specialize (Hlong eq_refl).
-  replace (1114111 <? Z.of_N i)%Z with false by (symmetry; apply Z.ltb_ge; lia).
-  replace (Z.of_N i <? 0)%Z with false by (symmetry; apply Z.ltb_ge; lia).
-  reflexivity.
-Qed.
-
 Lemma oct_emit_ok ds r : ds <> [] -> forallb is_octdigit ds = true -> (digits_val 8 ds <= 255)%N ->
   oct_emit ds r = FCont [digits_val 8 ds] r.
 Proof.
@@ -302,128 +137,6 @@ Proof.
   unfold digits_val. cbn [fold_left]. lia.
 Qed.
 
-(* one iteration: if the full lexer stops with the closing quote, so does the fast lexer, at the
-   same place; if it continues it either has noted an error, or it has appended bytes and then the
-   fast lexer appends the same bytes and continues at the same place *)
-Definition step_agree_rel (q : N) (pos : nat) (rest : list N) (st : sstate) (r : sstep) : Prop :=
-  match r with
-  | SCont pos' rest' st' =>
-    (exists z, st' = report st z) \/
-    (exists bs, st' = emit st bs /\ fstr_step q rest = FCont bs rest')
-  | SStop (SDone endpos st') =>
-    st' = st /\ exists k, endpos = pos + k /\ fstr_step q rest = FStop [] (skipn k rest)
-  | SStop _ => True
-  end.
-
-Ltac rep := left; eexists; reflexivity.
-Ltac emi := right; eexists; split; [reflexivity|].
-
-Lemma string_step_agree q pos rest st : step_agree_rel q pos rest st (string_step q pos rest st).
-Proof.
-  unfold step_agree_rel, string_step, fstr_step.
-  destruct rest as [|b0 r0] eqn:Erest; [exact I|].
-  rewrite <- Erest in *.
-  destruct (decode_rune rest) as [c sz] eqn:Ed.
-  destruct (c =? 10)%N; [exact I|].
-  destruct (c =? q)%N; [split; [reflexivity|exists sz; split; reflexivity]|].
-  destruct (c =? 0)%N; [rep|].
-  destruct (negb (c =? 92)%N); [emi; reflexivity|].
-  destruct (skipn sz rest) as [|b1 r1] eqn:Er1; [exact I|].
-  rewrite <- Er1 in *.
-  destruct (decode_rune (skipn sz rest)) as [e esz] eqn:Ed1.
-  destruct ((e =? 120)%N || (e =? 88)%N).
-  { destruct (skipn esz (skipn sz rest)) as [|b2 r2] eqn:Er2; [exact I|].
-    rewrite <- Er2 in *.
-    destruct (decode_rune (skipn esz (skipn sz rest))) as [c1 sz1] eqn:Ed2.
-    destruct ((c1 =? q)%N || (c1 =? 92)%N); [rep|].
-    destruct (skipn sz1 (skipn esz (skipn sz rest))) as [|b3 r3] eqn:Er3; [exact I|].
-    rewrite <- Er3 in *.
-    destruct (decode_rune (skipn sz1 (skipn esz (skipn sz rest)))) as [c2 sz2] eqn:Ed3.
-    destruct (is_hexdigit c2); cbv beta iota.
-    - destruct (parse_uint16_32 [c1; c2]) as [i|] eqn:Ep; [|rep]. emi.
-      pose proof (parse_uint_small _ _ Ep ltac:(cbn; lia)) as Hi.
-      rewrite (parse_uint_int _ _ Ep) by lia. rewrite byte_of_z_N. reflexivity.
-    - destruct (parse_uint16_32 [c1]) as [i|] eqn:Ep; [|rep]. emi.
-      pose proof (parse_uint_small _ _ Ep ltac:(cbn; lia)) as Hi.
-      rewrite (parse_uint_int _ _ Ep) by lia. rewrite byte_of_z_N. reflexivity. }
-  destruct (is_octdigit e) eqn:Eo.
-  { destruct (skipn esz (skipn sz rest)) as [|b2 r2] eqn:Er2; [exact I|].
-    rewrite <- Er2 in *.
-    destruct (decode_rune (skipn esz (skipn sz rest))) as [c2 sz2] eqn:Ed2.
-    destruct (is_octdigit c2) eqn:Eo2; cbn [negb].
-    2:{ emi. apply oct_emit_ok; [discriminate|cbn [forallb]; rewrite Eo; reflexivity|apply octval1, Eo]. }
-    destruct (skipn sz2 (skipn esz (skipn sz rest))) as [|b3 r3] eqn:Er3; [exact I|].
-    rewrite <- Er3 in *.
-    destruct (decode_rune (skipn sz2 (skipn esz (skipn sz rest)))) as [c3 sz3] eqn:Ed3.
-    destruct (is_octdigit c3) eqn:Eo3; cbn [negb].
-    2:{ emi. apply oct_emit_ok; [discriminate|cbn [forallb]; rewrite Eo, Eo2; reflexivity|apply octval2; assumption]. }
-    destruct (255 <? digits_val 8 [e; c2; c3])%N eqn:E255; [rep|]. emi.
-    apply oct_emit_ok; [discriminate|cbn [forallb]; rewrite Eo, Eo2, Eo3; reflexivity|apply N.ltb_ge, E255]. }
-  destruct (e =? 117)%N.
-  { destruct (read_uni 4 q (skipn esz (skipn sz rest))) as [[[rs n] full]|] eqn:Eu; [|exact I].
-    destruct full; cbn [negb]; [|rep].
-    destruct (parse_uint16_32 rs) as [i|] eqn:Ep; [|rep]. emi.
-    destruct (read_uni_full _ _ _ _ _ Eu) as [Hfr Hl].
-    pose proof (parse_uint_small _ _ Ep ltac:(lia)) as Hi.
-    apply uni_emit_ok with (rs := rs); [exact Hfr|exact Hl|apply parse_uint_int; [exact Ep|lia]|discriminate]. }
-  destruct (e =? 85)%N.
-  { destruct (read_uni 8 q (skipn esz (skipn sz rest))) as [[[rs n] full]|] eqn:Eu; [|exact I].
-    destruct full; cbn [negb]; [|rep].
-    destruct (parse_uint16_32 rs) as [i|] eqn:Ep; [|rep].
-    destruct (1114111 <? i)%N eqn:Emax; [rep|]. emi. apply N.ltb_ge in Emax.
-    destruct (read_uni_full _ _ _ _ _ Eu) as [Hfr Hl].
-    apply uni_emit_ok with (rs := rs); [exact Hfr|exact Hl|apply parse_uint_int; [exact Ep|lia]|intros _; exact Emax]. }
-  destruct (simple_esc e); [emi; reflexivity|rep].
-Qed.
-
-Lemma scan_string_agree q : forall fuel pos rest st endpos stf,
-  st_ok (pos + length rest) st ->
-  scan_string fuel q pos rest st = SDone endpos stf -> s_pend stf = None ->
-  s_pend st = None /\
-  exists suffix k, s_buf stf = s_buf st ++ suffix /\ endpos = pos + k /\ k <= length rest /\
-    forall fuel', length rest < fuel' -> fstring fuel' q rest = Some (suffix, skipn k rest).
-Proof.
-  induction fuel as [|fuel IH]; intros pos rest st endpos stf Hst Hs Hp; [discriminate|].
-  cbn [scan_string] in Hs.
-  pose proof (string_step_ok q pos rest st Hst) as Hok.
-  pose proof (string_step_agree q pos rest st) as Hag.
-  destruct (string_step q pos rest st) as [r|pos' rest' st'].
-  - subst r. cbn [step_ok step_agree_rel] in Hok, Hag.
-    destruct Hag as [-> (k & -> & Hf)]. destruct Hok as (k0 & Hk0 & Hk0e & _).
-    split; [exact Hp|]. exists [], k. rewrite app_nil_r.
-    split; [reflexivity|]. split; [reflexivity|]. split; [lia|].
-    intros fuel' Hf'. destruct fuel' as [|fuel']; [lia|]. cbn [fstring]. rewrite Hf. reflexivity.
-  - cbn [step_ok] in Hok. destruct Hok as (k & Hk & -> & -> & Hst').
-    assert (Hhi : pos + k + length (skipn k rest) = pos + length rest) by (rewrite skipn_length; lia).
-    specialize (IH (pos + k) (skipn k rest) st' endpos stf ltac:(rewrite Hhi; exact Hst') Hs Hp).
-    destruct IH as (Hp' & suf & k2 & Hbuf & -> & Hk2 & Hfs).
-    cbn [step_agree_rel] in Hag. destruct Hag as [(z & ->)|(bs & -> & Hf)].
-    + cbn in Hp'. discriminate.
-    + cbn in Hp', Hbuf. split; [exact Hp'|]. exists (bs ++ suf), (k + k2). rewrite app_assoc.
-      rewrite skipn_length in Hk2.
-      split; [exact Hbuf|]. split; [lia|]. split; [lia|].
-      intros fuel' Hf'. destruct fuel' as [|fuel']; [lia|]. cbn [fstring]. rewrite Hf.
-      rewrite Hfs by (rewrite skipn_length; lia). rewrite skipn_skipn_N. reflexivity.
-Qed.
-
-Lemma sstate0_ok hi : st_ok hi sstate0.
-Proof. split; cbn; [discriminate|intros z []]. Qed.
-
-(* C25 (2): every string literal the full lexer accepts is decoded to the same bytes by the fast
-   lexer, which also stops right after the same closing quote *)
-Theorem string_decode_agree_lemma : forall q rest bs n,
-  full_decode q rest = Some (bs, n) -> fast_decode q rest = Some (bs, skipn n rest).
-Proof.
-  intros q rest bs n H. unfold full_decode in H. unfold fast_decode.
-  destruct (scan_string (S (length rest)) q 1 rest sstate0) as [endpos st| | |] eqn:Es; try discriminate.
-  destruct (s_pend st) eqn:Ep; [discriminate|]. inversion H; subst.
-  destruct (scan_string_agree q _ _ _ _ _ _ (sstate0_ok _) Es Ep) as (_ & suf & k & Hbuf & -> & Hk & Hf).
-  cbn in Hbuf. rewrite Hbuf. replace (1 + k - 1) with k by lia. apply Hf. lia.
-Qed.
-
-(* ================================================================================================
-   D. the whole token stream: the fast lexer against the full lexer
-   ================================================================================================ *)
 Lemma decode_ascii_inv rest c sz : decode_rune rest = (c, sz) -> rest <> [] -> (c < 128)%N ->
   sz = 1 /\ exists t, rest = c :: t.
 Proof.
@@ -471,11 +184,314 @@ Proof.
     intros H. inversion H. cbn [skipn]. apply IH. reflexivity.
 Qed.
 
+Lemma skipn_succ (d : list N) pos c r : skipn pos d = c :: r -> skipn (S pos) d = r.
+Proof.
+  intros H. replace (S pos) with (pos + 1) by lia. rewrite <- skipn_skipn_N, H. reflexivity.
+Qed.
+
+Lemma sstate0_ok hi : st_ok hi sstate0.
+Proof. split; cbn; [discriminate|intros z []]. Qed.
+
+Lemma skip_line_le r : length (skip_line r) <= length r.
+Proof. induction r as [|c r IH]; cbn; [lia|]. destruct (c =? 10)%N; cbn; lia. Qed.
+
+Lemma skip_block_le r : length (skip_block r) <= length r.
+Proof.
+  induction r as [|c r IH]; cbn [skip_block length]; [lia|].
+  destruct (c =? 42)%N; [|lia].
+  destruct r as [|d r']; [cbn; lia|]. destruct (d =? 47)%N; cbn [length] in *; lia.
+Qed.
+
+Lemma oct_emit_rest ds r : exists ch, oct_emit ds r = FCont ch r.
+Proof.
+  unfold oct_emit. destruct (parse_int_32 8 ds) as [i|]; [destruct (255 <? i)%Z|]; eexists; reflexivity.
+Qed.
+
+Section WithHexParser.
+(* the parser applied to the digits of hex and unicode escapes (Model/FastScan.v): totality holds
+   for any such parser, agreement with the full lexer for any that agrees with the full lexer's
+   ParseUint below 2^31 (hypothesis Hph further down) *)
+Variable ph : list N -> option Z.
+
+(* one iteration of readStringLiteral's loop stops, or continues with strictly less input *)
+Definition fstep_ok (rest : list N) (r : fstep) : Prop :=
+  match r with
+  | FStop _ r' => length r' <= length rest
+  | FCont _ r' => length r' < length rest
+  end.
+
+Lemma uni_emit_rest k e long r2 : exists ch n, uni_emit ph k e long r2 = FCont ch (skipn n r2).
+Proof.
+  unfold uni_emit. destruct (fread_runes k r2) as [rs n].
+  destruct (ph _) as [i|]; [destruct (long && _)|]; eexists _, n; reflexivity.
+Qed.
+
+Ltac fin := cbn [fstep_ok length]; rewrite ?skipn_length; lia.
+
+Lemma fstr_step_ok q rest : fstep_ok rest (fstr_step ph q rest).
+Proof.
+  unfold fstr_step. destruct rest as [|b0 r0] eqn:Erest; [cbn; lia|].
+  rewrite <- Erest in *. assert (Hne : rest <> []) by (rewrite Erest; discriminate).
+  destruct (decode_rune rest) as [c sz] eqn:Ed.
+  pose proof (decode_size rest c sz Hne Ed) as Hsz.
+  destruct (c =? q)%N; [fin|].
+  destruct (negb (c =? 92)%N); [fin|].
+  destruct (skipn sz rest) as [|b1 r1] eqn:Er1; [fin|].
+  rewrite <- Er1 in *. assert (Hne1 : skipn sz rest <> []) by (rewrite Er1; discriminate).
+  destruct (decode_rune (skipn sz rest)) as [e esz] eqn:Ed1.
+  pose proof (decode_size _ e esz Hne1 Ed1) as Hesz. rewrite skipn_length in Hesz.
+  destruct ((e =? 120)%N || (e =? 88)%N).
+  { destruct (skipn esz (skipn sz rest)) as [|b2 r2] eqn:Er2; [fin|].
+    rewrite <- Er2 in *. assert (Hne2 : skipn esz (skipn sz rest) <> []) by (rewrite Er2; discriminate).
+    destruct (decode_rune (skipn esz (skipn sz rest))) as [c1 sz1] eqn:Ed2.
+    pose proof (decode_size _ c1 sz1 Hne2 Ed2) as Hsz1. rewrite !skipn_length in Hsz1.
+    destruct (skipn sz1 (skipn esz (skipn sz rest))) as [|b3 r3] eqn:Er3; [fin|].
+    rewrite <- Er3 in *.
+    destruct (decode_rune (skipn sz1 (skipn esz (skipn sz rest)))) as [c2 sz2] eqn:Ed3.
+    destruct (is_hexdigit c2); cbv beta iota; destruct (ph _); fin. }
+  destruct (is_octdigit e).
+  { destruct (skipn esz (skipn sz rest)) as [|b2 r2] eqn:Er2; [fin|].
+    rewrite <- Er2 in *. assert (Hne2 : skipn esz (skipn sz rest) <> []) by (rewrite Er2; discriminate).
+    destruct (decode_rune (skipn esz (skipn sz rest))) as [c2 sz2] eqn:Ed2.
+    pose proof (decode_size _ c2 sz2 Hne2 Ed2) as Hsz2. rewrite !skipn_length in Hsz2.
+    destruct (negb (is_octdigit c2)).
+    { destruct (oct_emit_rest [e] (skipn esz (skipn sz rest))) as [ch ->]. fin. }
+    destruct (skipn sz2 (skipn esz (skipn sz rest))) as [|b3 r3] eqn:Er3; [fin|].
+    rewrite <- Er3 in *.
+    destruct (decode_rune (skipn sz2 (skipn esz (skipn sz rest)))) as [c3 sz3] eqn:Ed3.
+    destruct (negb (is_octdigit c3)).
+    - destruct (oct_emit_rest [e; c2] (skipn sz2 (skipn esz (skipn sz rest)))) as [ch ->]. fin.
+    - destruct (oct_emit_rest [e; c2; c3] (skipn sz3 (skipn sz2 (skipn esz (skipn sz rest))))) as [ch ->]. fin. }
+  destruct (e =? 117)%N.
+  { destruct (uni_emit_rest 4 117%N false (skipn esz (skipn sz rest))) as (ch & n & ->). fin. }
+  destruct (e =? 85)%N.
+  { destruct (uni_emit_rest 8 85%N true (skipn esz (skipn sz rest))) as (ch & n & ->). fin. }
+  destruct (simple_esc e); fin.
+Qed.
+
+Lemma fstring_total q : forall fuel rest, length rest < fuel ->
+  exists b r, fstring ph fuel q rest = Some (b, r) /\ length r <= length rest.
+Proof.
+  induction fuel as [|fuel IH]; intros rest Hf; [lia|]. cbn [fstring].
+  pose proof (fstr_step_ok q rest) as Hs. destruct (fstr_step ph q rest) as [ch r|ch r]; cbn [fstep_ok] in Hs.
+  - exists ch, r. split; [reflexivity|exact Hs].
+  - destruct (IH r ltac:(lia)) as (b & r' & -> & Hl). exists (ch ++ b), r'. split; [reflexivity|lia].
+Qed.
+
+Theorem fast_string_total_lemma : forall q rest, fast_decode ph q rest <> None.
+Proof.
+  intros q rest. unfold fast_decode.
+  destruct (fstring_total q (S (length rest)) rest ltac:(lia)) as (b & r & -> & _). discriminate.
+Qed.
+
+(* one call of Lex on input that does not start with white space consumes at least one byte *)
+Definition fdres_ok (rest : list N) (r : fdres) : Prop :=
+  match r with
+  | FTok _ r' | FSkip r' => length r' < length rest
+  | FFuel => False
+  end.
+
+Lemma fdispatch_ok rest : rest <> [] -> fdres_ok rest (fdispatch ph rest).
+Proof.
+  intros Hne. unfold fdispatch.
+  destruct (decode_rune rest) as [c sz] eqn:Ed.
+  pose proof (decode_size rest c sz Hne Ed) as Hsz.
+  assert (Hl1 : length (skipn sz rest) = length rest - sz) by apply skipn_length.
+  destruct (c =? 46)%N.
+  { destruct (skipn sz rest) as [|d r2] eqn:Er; [cbn in *; lia|].
+    destruct (is_digit d); cbn [fdres_ok]; [rewrite skipn_length; lia|cbn [length] in *; lia]. }
+  destruct (is_ident_start c); [cbn [fdres_ok]; rewrite skipn_length; lia|].
+  destruct (is_digit c); [cbn [fdres_ok]; rewrite skipn_length; lia|].
+  destruct ((c =? 39)%N || (c =? 34)%N).
+  { destruct (fstring_total c (S (length (skipn sz rest))) (skipn sz rest) ltac:(lia)) as (b & r & -> & Hl).
+    cbn [fdres_ok]. lia. }
+  destruct (c =? 47)%N.
+  { destruct (skipn sz rest) as [|d r2] eqn:Er; [cbn in *; lia|]. cbn [length] in Hl1.
+    destruct (d =? 47)%N; [pose proof (skip_line_le r2); cbn [fdres_ok]; lia|].
+    destruct (d =? 42)%N; [pose proof (skip_block_le r2); cbn [fdres_ok]; lia|].
+    cbn [fdres_ok length]. lia. }
+  cbn [fdres_ok]. lia.
+Qed.
+
+Lemma ftokens_total : forall fuel rest, length rest < fuel -> ftokens ph fuel rest <> None.
+Proof.
+  induction fuel as [|fuel IH]; intros rest Hf; [lia|]. cbn [ftokens].
+  destruct rest as [|c r]; [discriminate|].
+  destruct (is_ws c); [apply IH; cbn [length] in Hf; lia|].
+  pose proof (fdispatch_ok (c :: r) ltac:(discriminate)) as Hd.
+  destruct (fdispatch ph (c :: r)) as [t r'|r'|]; cbn [fdres_ok] in Hd; [| |contradiction].
+  - specialize (IH r' ltac:(lia)). destruct (ftokens ph fuel r'); [discriminate|congruence].
+  - apply IH. lia.
+Qed.
+
+Theorem fast_lex_total_lemma : forall data, fast_lex ph data <> None.
+Proof. intros data. unfold fast_lex. apply ftokens_total. lia. Qed.
+
+Theorem fast_scan_total_lemma : forall data, fast_scan ph data <> None.
+Proof.
+  intros data. unfold fast_scan. pose proof (fast_lex_total_lemma data) as H.
+  destruct (fast_lex ph data); [discriminate|congruence].
+Qed.
+
+(* with enough fuel the result of ftokens does not depend on the fuel *)
+Lemma ftokens_fuel : forall fuel fuel' rest, length rest < fuel -> length rest < fuel' ->
+  ftokens ph fuel rest = ftokens ph fuel' rest.
+Proof.
+  induction fuel as [|fuel IH]; intros fuel' rest Hf Hf'; [lia|].
+  destruct fuel' as [|fuel']; [lia|]. cbn [ftokens].
+  destruct rest as [|c r]; [reflexivity|].
+  destruct (is_ws c); [apply IH; cbn [length] in *; lia|].
+  pose proof (fdispatch_ok (c :: r) ltac:(discriminate)) as Hd.
+  destruct (fdispatch ph (c :: r)) as [t r'|r'|]; cbn [fdres_ok] in Hd; [| |contradiction].
+  - rewrite (IH fuel' r') by lia. reflexivity.
+  - apply IH; lia.
+Qed.
+
+(* ================================================================================================
+   C. string literals: the fast lexer against the full lexer
+   ================================================================================================ *)
+
+Lemma uni_emit_ok k e long r2 rs n i :
+  fread_runes k r2 = (rs, n) -> length rs = k -> ph rs = Some (Z.of_N i) ->
+  (long = true -> (i <= 1114111)%N) ->
+  uni_emit ph k e long r2 = FCont (encode_rune i) (skipn n r2).
+Proof.
+  intros Hfr Hl Hp Hlong. unfold uni_emit. rewrite Hfr, Hl, Nat.sub_diag, Nat.ltb_irrefl.
+  cbn [repeat]. rewrite app_nil_r, Hp. cbn [app]. rewrite enc_rune_z_N.
+  destruct long; cbn [andb]; [|reflexivity].
+  specialize (Hlong eq_refl).
+  replace (1114111 <? Z.of_N i)%Z with false by (symmetry; apply Z.ltb_ge; lia).
+  replace (Z.of_N i <? 0)%Z with false by (symmetry; apply Z.ltb_ge; lia).
+  reflexivity.
+Qed.
+
+Hypothesis Hph : forall rs i, parse_uint16_32 rs = Some i -> (i < 2147483648)%N -> ph rs = Some (Z.of_N i).
+
+(* one iteration: if the full lexer stops with the closing quote, so does the fast lexer, at the
+   same place; if it continues it either has noted an error, or it has appended bytes and then the
+   fast lexer appends the same bytes and continues at the same place *)
+Definition step_agree_rel (q : N) (pos : nat) (rest : list N) (st : sstate) (r : sstep) : Prop :=
+  match r with
+  | SCont pos' rest' st' =>
+    (exists z, st' = report st z) \/
+    (exists bs, st' = emit st bs /\ fstr_step ph q rest = FCont bs rest')
+  | SStop (SDone endpos st') =>
+    st' = st /\ exists k, endpos = pos + k /\ fstr_step ph q rest = FStop [] (skipn k rest)
+  | SStop _ => True
+  end.
+
+Ltac rep := left; eexists; reflexivity.
+Ltac emi := right; eexists; split; [reflexivity|].
+
+Lemma string_step_agree q pos rest st : step_agree_rel q pos rest st (string_step q pos rest st).
+Proof.
+  unfold step_agree_rel, string_step, fstr_step.
+  destruct rest as [|b0 r0] eqn:Erest; [exact I|].
+  rewrite <- Erest in *.
+  destruct (decode_rune rest) as [c sz] eqn:Ed.
+  destruct (c =? 10)%N; [exact I|].
+  destruct (c =? q)%N; [split; [reflexivity|exists sz; split; reflexivity]|].
+  destruct (c =? 0)%N; [rep|].
+  destruct (negb (c =? 92)%N); [emi; reflexivity|].
+  destruct (skipn sz rest) as [|b1 r1] eqn:Er1; [exact I|].
+  rewrite <- Er1 in *.
+  destruct (decode_rune (skipn sz rest)) as [e esz] eqn:Ed1.
+  destruct ((e =? 120)%N || (e =? 88)%N).
+  { destruct (skipn esz (skipn sz rest)) as [|b2 r2] eqn:Er2; [exact I|].
+    rewrite <- Er2 in *.
+    destruct (decode_rune (skipn esz (skipn sz rest))) as [c1 sz1] eqn:Ed2.
+    destruct ((c1 =? q)%N || (c1 =? 92)%N); [rep|].
+    destruct (skipn sz1 (skipn esz (skipn sz rest))) as [|b3 r3] eqn:Er3; [exact I|].
+    rewrite <- Er3 in *.
+    destruct (decode_rune (skipn sz1 (skipn esz (skipn sz rest)))) as [c2 sz2] eqn:Ed3.
+    destruct (is_hexdigit c2); cbv beta iota.
+    - destruct (parse_uint16_32 [c1; c2]) as [i|] eqn:Ep; [|rep]. emi.
+      pose proof (parse_uint_small _ _ Ep ltac:(cbn; lia)) as Hi.
+      rewrite (Hph _ _ Ep) by lia. rewrite byte_of_z_N. reflexivity.
+    - destruct (parse_uint16_32 [c1]) as [i|] eqn:Ep; [|rep]. emi.
+      pose proof (parse_uint_small _ _ Ep ltac:(cbn; lia)) as Hi.
+      rewrite (Hph _ _ Ep) by lia. rewrite byte_of_z_N. reflexivity. }
+  destruct (is_octdigit e) eqn:Eo.
+  { destruct (skipn esz (skipn sz rest)) as [|b2 r2] eqn:Er2; [exact I|].
+    rewrite <- Er2 in *.
+    destruct (decode_rune (skipn esz (skipn sz rest))) as [c2 sz2] eqn:Ed2.
+    destruct (is_octdigit c2) eqn:Eo2; cbn [negb].
+    2:{ emi. apply oct_emit_ok; [discriminate|cbn [forallb]; rewrite Eo; reflexivity|apply octval1, Eo]. }
+    destruct (skipn sz2 (skipn esz (skipn sz rest))) as [|b3 r3] eqn:Er3; [exact I|].
+    rewrite <- Er3 in *.
+    destruct (decode_rune (skipn sz2 (skipn esz (skipn sz rest)))) as [c3 sz3] eqn:Ed3.
+    destruct (is_octdigit c3) eqn:Eo3; cbn [negb].
+    2:{ emi. apply oct_emit_ok; [discriminate|cbn [forallb]; rewrite Eo, Eo2; reflexivity|apply octval2; assumption]. }
+    destruct (255 <? digits_val 8 [e; c2; c3])%N eqn:E255; [rep|]. emi.
+    apply oct_emit_ok; [discriminate|cbn [forallb]; rewrite Eo, Eo2, Eo3; reflexivity|apply N.ltb_ge, E255]. }
+  destruct (e =? 117)%N.
+  { destruct (read_uni 4 q (skipn esz (skipn sz rest))) as [[[rs n] full]|] eqn:Eu; [|exact I].
+    destruct full; cbn [negb]; [|rep].
+    destruct (parse_uint16_32 rs) as [i|] eqn:Ep; [|rep]. emi.
+    destruct (read_uni_full _ _ _ _ _ Eu) as [Hfr Hl].
+    pose proof (parse_uint_small _ _ Ep ltac:(lia)) as Hi.
+    apply uni_emit_ok with (rs := rs); [exact Hfr|exact Hl|apply Hph; [exact Ep|lia]|discriminate]. }
+  destruct (e =? 85)%N.
+  { destruct (read_uni 8 q (skipn esz (skipn sz rest))) as [[[rs n] full]|] eqn:Eu; [|exact I].
+    destruct full; cbn [negb]; [|rep].
+    destruct (parse_uint16_32 rs) as [i|] eqn:Ep; [|rep].
+    destruct (1114111 <? i)%N eqn:Emax; [rep|]. emi. apply N.ltb_ge in Emax.
+    destruct (read_uni_full _ _ _ _ _ Eu) as [Hfr Hl].
+    apply uni_emit_ok with (rs := rs); [exact Hfr|exact Hl|apply Hph; [exact Ep|lia]|intros _; exact Emax]. }
+  destruct (simple_esc e); [emi; reflexivity|rep].
+Qed.
+
+Lemma scan_string_agree q : forall fuel pos rest st endpos stf,
+  st_ok (pos + length rest) st ->
+  scan_string fuel q pos rest st = SDone endpos stf -> s_pend stf = None ->
+  s_pend st = None /\
+  exists suffix k, s_buf stf = s_buf st ++ suffix /\ endpos = pos + k /\ k <= length rest /\
+    forall fuel', length rest < fuel' -> fstring ph fuel' q rest = Some (suffix, skipn k rest).
+Proof.
+  induction fuel as [|fuel IH]; intros pos rest st endpos stf Hst Hs Hp; [discriminate|].
+  cbn [scan_string] in Hs.
+  pose proof (string_step_ok q pos rest st Hst) as Hok.
+  pose proof (string_step_agree q pos rest st) as Hag.
+  destruct (string_step q pos rest st) as [r|pos' rest' st'].
+  - subst r. cbn [step_ok step_agree_rel] in Hok, Hag.
+    destruct Hag as [-> (k & -> & Hf)]. destruct Hok as (k0 & Hk0 & Hk0e & _).
+    split; [exact Hp|]. exists [], k. rewrite app_nil_r.
+    split; [reflexivity|]. split; [reflexivity|]. split; [lia|].
+    intros fuel' Hf'. destruct fuel' as [|fuel']; [lia|]. cbn [fstring]. rewrite Hf. reflexivity.
+  - cbn [step_ok] in Hok. destruct Hok as (k & Hk & -> & -> & Hst').
+    assert (Hhi : pos + k + length (skipn k rest) = pos + length rest) by (rewrite skipn_length; lia).
+    specialize (IH (pos + k) (skipn k rest) st' endpos stf ltac:(rewrite Hhi; exact Hst') Hs Hp).
+    destruct IH as (Hp' & suf & k2 & Hbuf & -> & Hk2 & Hfs).
+    cbn [step_agree_rel] in Hag. destruct Hag as [(z & ->)|(bs & -> & Hf)].
+    + cbn in Hp'. discriminate.
+    + cbn in Hp', Hbuf. split; [exact Hp'|]. exists (bs ++ suf), (k + k2). rewrite app_assoc.
+      rewrite skipn_length in Hk2.
+      split; [exact Hbuf|]. split; [lia|]. split; [lia|].
+      intros fuel' Hf'. destruct fuel' as [|fuel']; [lia|]. cbn [fstring]. rewrite Hf.
+      rewrite Hfs by (rewrite skipn_length; lia). rewrite skipn_skipn_N. reflexivity.
+Qed.
+
+(* C25 (2): every string literal the full lexer accepts is decoded to the same bytes by the fast
+   lexer, which also stops right after the same closing quote *)
+Theorem string_decode_agree_lemma : forall q rest bs n,
+  full_decode q rest = Some (bs, n) -> fast_decode ph q rest = Some (bs, skipn n rest).
+Proof.
+  intros q rest bs n H. unfold full_decode in H. unfold fast_decode.
+  destruct (scan_string (S (length rest)) q 1 rest sstate0) as [endpos st| | |] eqn:Es; try discriminate.
+  destruct (s_pend st) eqn:Ep; [discriminate|]. inversion H; subst.
+  destruct (scan_string_agree q _ _ _ _ _ _ (sstate0_ok _) Es Ep) as (_ & suf & k & Hbuf & -> & Hk & Hf).
+  cbn in Hbuf. rewrite Hbuf. replace (1 + k - 1) with k by lia. apply Hf. lia.
+Qed.
+
+(* ================================================================================================
+   D. the whole token stream: the fast lexer against the full lexer
+   ================================================================================================ *)
+
 (* one item of the full lexer: the fast lexer produces the corresponding token (or skips the
    comment) and continues at the same place, or one newline further after a line comment *)
 Lemma dispatch_agree pos rest it : rest <> [] -> dispatch pos rest = DItem it ->
   exists r', (r' = skipn (i_len it) rest \/ skipn (i_len it) rest = 10%N :: r') /\
-    fdispatch rest = match ftok_local rest it with Some t => FTok t r' | None => FSkip r' end.
+    fdispatch ph rest = match ftok_local rest it with Some t => FTok t r' | None => FSkip r' end.
 Proof.
   intros Hne. unfold dispatch, fdispatch.
   destruct (decode_rune rest) as [c sz] eqn:Ed.
@@ -523,7 +539,7 @@ Proof.
 Qed.
 
 Lemma ftokens_after r' s : (r' = s \/ s = 10%N :: r') ->
-  forall f f', length s < f -> length r' < f' -> ftokens f s = ftokens f' r'.
+  forall f f', length s < f -> length r' < f' -> ftokens ph f s = ftokens ph f' r'.
 Proof.
   intros [->| ->] f f' Hf Hf'.
   - apply ftokens_fuel; assumption.
@@ -531,15 +547,10 @@ Proof.
     apply ftokens_fuel; [cbn [length] in Hf; lia|assumption].
 Qed.
 
-Lemma skipn_succ (d : list N) pos c r : skipn pos d = c :: r -> skipn (S pos) d = r.
-Proof.
-  intros H. replace (S pos) with (pos + 1) by lia. rewrite <- skipn_skipn_N, H. reflexivity.
-Qed.
-
 Lemma lex_loop_agree d : forall fuel pos rest acc items,
   rest = skipn pos d -> lex_loop fuel pos rest acc = LDone items ->
   exists new, items = rev acc ++ new /\
-    forall fuel', length rest < fuel' -> ftokens fuel' rest = Some (ftoks_of_items d new).
+    forall fuel', length rest < fuel' -> ftokens ph fuel' rest = Some (ftoks_of_items d new).
 Proof.
   induction fuel as [|fuel IH]; intros pos rest acc items Hrest Hl; [discriminate|].
   cbn [lex_loop] in Hl. destruct rest as [|c r].
@@ -561,7 +572,7 @@ Proof.
       assert (Hls : length (skipn (i_len it) (c :: r)) < length (c :: r)) by (rewrite skipn_length; lia).
       assert (Hlr : length r' <= length (skipn (i_len it) (c :: r))).
       { destruct Hr' as [->|E]; [lia|]. rewrite E. cbn [length]. lia. }
-      assert (Hnext : ftokens fuel' r' = Some (ftoks_of_items d new)).
+      assert (Hnext : ftokens ph fuel' r' = Some (ftoks_of_items d new)).
       { rewrite <- (Hf (S (length (skipn (i_len it) (c :: r)))) ltac:(lia)). symmetry.
         apply ftokens_after; [destruct Hr' as [->|E]; [left; reflexivity|right; exact E]|lia|lia]. }
       unfold ftoks_of_items. cbn [flat_map]. unfold ftok_of_item at 1.
@@ -572,9 +583,20 @@ Qed.
 (* C25: on every input the full lexer accepts, the fast lexer returns the same tokens: same raw
    text of names and numbers, same decoded value of every string literal, same symbols *)
 Theorem fast_lex_agree_lemma : forall data items, lex data = LDone items ->
-  fast_lex data = Some (ftoks_of_items (strip_bom data) items).
+  fast_lex ph data = Some (ftoks_of_items (strip_bom data) items).
 Proof.
   intros data items H. unfold lex in H. unfold fast_lex.
   destruct (lex_loop_agree (strip_bom data) _ 0 (strip_bom data) [] items eq_refl H) as (new & -> & Hf).
   apply Hf. lia.
 Qed.
+
+End WithHexParser.
+
+(* ---- the two parsers the model is instantiated with ---- *)
+Lemma hex_signed_ok : forall rs i, parse_uint16_32 rs = Some i -> (i < 2147483648)%N ->
+  hex_signed rs = Some (Z.of_N i).
+Proof. exact parse_uint_int. Qed.
+
+Lemma hex_unsigned_ok : forall rs i, parse_uint16_32 rs = Some i -> (i < 2147483648)%N ->
+  hex_unsigned rs = Some (Z.of_N i).
+Proof. intros rs i H _. unfold hex_unsigned. rewrite H. reflexivity. Qed.
